@@ -1,10 +1,12 @@
 package main
 
 import (
+	"context"
 	"fmt"
 
 	sm "github.com/smart-core-os/sc-golang/internal/verif/seqmodel"
 	"github.com/smart-core-os/sc-golang/internal/verif/vk"
+	"github.com/smart-core-os/sc-golang/pkg/resource"
 )
 
 // forcedJoin: a backpressured subscriber (with seed) joins while the single writer performs one write: the
@@ -225,4 +227,85 @@ func forcedJoinDuringSend(r *vk.Run) {
 		}
 	}
 	r.Require("forced-join-during-send-scenarios", 10)
+}
+
+// leaverMidSeed: a seeded backpressured subscriber goes away while it is still being offered its initial items
+// (it took 0, 1 or 2 of 3). The next write must go through as if it had never been there: it returns, and the
+// remaining subscriber gets exactly one event for it.
+func leaverMidSeed(r *vk.Run) {
+	idx := 0
+	for _, isVal := range []bool{false, true} {
+		for taken := 0; taken <= 2; taken++ {
+			for _, when := range []string{"cancel-then-write", "write-then-cancel"} {
+				idx++
+				if !r.Mine(idx) || (isVal && taken > 0) {
+					continue
+				}
+				init := inits(isVal)[len(inits(isVal))-1]
+				w := newWorld(r, isVal, false, init)
+				w.trace = append(w.trace, fmt.Sprintf("leaver mid-seed: isValue=%v init=%s, %d seed(s) taken, %s", isVal, w.state.Render(), taken, when))
+				if !w.open(subSpec{UpdatesOnly: true, OpenAt: -1}) { // the witness
+					w.close()
+					continue
+				}
+				ctx, cancel := context.WithCancel(context.Background())
+				if isVal {
+					ch := w.val.Pull(ctx, resource.WithBackpressure(true))
+					for k := 0; k < taken; k++ {
+						<-ch
+					}
+				} else {
+					ch := w.col.Pull(ctx, resource.WithBackpressure(true))
+					for k := 0; k < taken; k++ {
+						<-ch
+					}
+				}
+				vk.Quiesce()
+				op := sm.Op{Kind: sm.Set, Val: val(21, "after-leaver")}
+				if !isVal {
+					op = sm.Op{Kind: sm.Update, ID: "a", Val: val(21, "after-leaver")}
+				}
+				// the write runs on its own goroutine through the model's executor (world.write would wait for quiescence
+				// itself); what the witness received is checked by hand afterwards
+				before := w.state
+				var res sm.Result
+				exec := func() {
+					if isVal {
+						res = w.model.ExecValue(w.val, op)
+					} else {
+						res = w.model.ExecCollection(w.col, op)
+					}
+				}
+				var t *vk.Task
+				if when == "cancel-then-write" {
+					cancel()
+					vk.Quiesce()
+					t = vk.Go(exec)
+				} else {
+					t = vk.Go(exec)
+					vk.Quiesce()
+					cancel()
+				}
+				vk.Quiesce()
+				r.Eval(1)
+				r.Count("leaver-mid-seed-scenarios", 1)
+				r.Distinct(fmt.Sprintf("leaver|%v|%d|%s", isVal, taken, when))
+				if !t.Done() {
+					w.viol("count/write-stuck-behind-a-subscriber-that-left", fmt.Sprintf("%v has not returned at the quiescent point: a seeded backpressured subscriber that had taken %d of its initial items was cancelled (%s)\n%s", op, taken, when, vk.DescribeGs(vk.LibraryGoroutines(vk.Goroutines(), nil))), nil)
+					cancel()
+					return // the writer stays blocked: later quiescence checks of this worker would be disturbed
+				}
+				if v, next := w.model.Apply(before, op, res); v.OK {
+					w.state = next
+					got := w.subs[0].take()
+					if len(got) != 1 || !vk.SameMessage(got[0].new, op.Val) {
+						w.viol("count/after-a-subscriber-left-mid-seed", fmt.Sprintf("%v succeeded; the remaining subscriber received %v, want exactly one event carrying the written value", op, got), w.subs[0])
+					}
+				}
+				cancel()
+				w.close()
+			}
+		}
+	}
+	r.Require("leaver-mid-seed-scenarios", 3)
 }
